@@ -190,6 +190,10 @@ def gen_op(mm, objs, nres, rng, p_wrong=0.06, weights=None):
         if k in ('extend', 'update', 'iadd'):
             if rng.random() < 0.12:
                 return ['extendself', o, fi, k]          # c.extend(c) / c += c : the argument is the collection itself
+            if rng.random() < 0.15:
+                others = [j for j in range(len(objs)) if j != o and fi in applicable(mm, objs[j])]
+                if others:                               # b.items.extend(a.items): another object's LIVE collection
+                    return ['extendfrom', o, fi, k, rng.choice(others)]
             return [k, o, fi, [v() for _ in range(rng.randrange(0, 4))]]
         if k == 'assign':
             return ['assign', o, fi, [v() for _ in range(rng.randrange(0, 4))], rng.choice(['list', 'list', 'tuple', 'gen'])]
